@@ -1,6 +1,6 @@
 SPECIFICATION TraceSpec
 CONSTANTS
-  NPaths = 3
+  NPaths = 4
   Kinds = {"rec", "alr"}
   Names = {"n1"}
   Bodies = {"v1"}
@@ -13,5 +13,6 @@ CONSTANTS
   MaxBaseAdv = 1000
   OpSet = {"BaseAdvance"}
   ForkFdis = FALSE
+  TombRename = TRUE
   MatchMode = "any"
 CHECK_DEADLOCK FALSE
